@@ -36,3 +36,10 @@ for nm, lo in (('p31', '(1LL << 31)'), ('p32', '(1LL << 32)'), ('m31', '(-(1LL <
           call='precalc(f, dur)', ret='struct precalc_s', solvers=['cadical'], timeout=600, split='in_dv >= %s && in_dv < %s + (1LL << 20)' % (lo, lo),
           bounded=dict(bound='totals in a window of 2^20 seconds starting at %s' % lo, why='see dd.precalc.*: the full range does not discharge'),
           sweep={'in_dv': '(long long)(RND % (1ULL << 41)) - (1LL << 40)'})
+
+# C06: ltostr prints the value (windows of the argument: small values, around +-2^31, around 2^32, around 10^12)
+for nm, lo, hi in (('small', '-(1L << 20)', '(1L << 20)'), ('p31', '(1L << 31) - 1024', '(1L << 31) + (1L << 19)'), ('m31', '-(1L << 31) - (1L << 19)', '-(1L << 31) + 1024'),
+                   ('p32', '(1L << 32) - 1024', '(1L << 32) + (1L << 19)'), ('m32', '-(1L << 32) - (1L << 19)', '-(1L << 32) + 1024'), ('e12', '1000000000000L - 1024', '1000000000000L + (1L << 19)')):
+    G('dd.L_ltostr.' + nm, 'ddiff', 'L_ltostr', ['C06'], ins=[('long', 'in_v')], call='L_ltostr(in_v)', pre='1', post='1', split='in_v >= %s && in_v < %s' % (lo, hi),
+      direct=True, must=['L_ltostr'], native=False, solvers=['cadical'], timeout=600, unwind=24,
+      bounded=dict(bound='values in [%s, %s)' % (lo, hi), why='64-bit division chains: narrow windows discharge, the full range does not'))
